@@ -155,7 +155,7 @@ def check_single_(line, hout, dout, stats, notes):
         flags = line.split()[13:]
         if ("massign=1" in flags or "move=1" in flags) and calls == "-" and cls != "glik":
             bad.append(("%s:models-not-reached" % cls, where + "the handed-over correction made no call to the configured measurement / likelihood model"))
-        for fl in ("deco=1", "move=1", "massign=1"):
+        for fl in ("deco=1", "move=1", "massign=1", "degen=1"):
             if fl in flags:
                 stats[fl] = stats.get(fl, 0) + 1
         if same not in ("same", "alias"):
@@ -287,6 +287,7 @@ def exhaustive_cases(g, variants):
             if v == 0:
                 # ... behind a forwarding decorator, on a move-constructed object, and with scalar sizes
                 cases.append((mkline(cls, r.randint(0, 99999), n, m, k, sb, sc) + " deco=1" + ("" if cls == "glik" else " move=1"), {"style": "exhaustive-handover", "cls": cls}))
+                cases.append((mkline(cls, r.randint(0, 99999), n, m, max(k, 3), sb, sc) + " degen=1", {"style": "exhaustive-degenerate-belief", "cls": cls}))
                 if msub is None:
                     n1, m1, k1 = sizes(r, "scalar")
                     cases.append((mkline(cls, r.randint(0, 99999), n1, m1, k1, 1, sc), {"style": "exhaustive-scalar", "cls": cls}))
@@ -362,6 +363,8 @@ def random_cases(g, count):
             ln += " alias=1"
         if not cls.startswith("sis-") and r.random() < 0.2:
             ln += " deco=1"
+        if not cls.startswith("sis-") and r.random() < 0.2:
+            ln += " degen=1"
         if cls != "glik" and not cls.startswith("sis-") and r.random() < 0.2:
             ln += " move=1"
         cases.append((ln, {"style": "random", "cls": cls}))
@@ -508,7 +511,7 @@ def run(ctx):
         "state_based_calls_checked": stats.get("epoch_calls", 0),
         "in_place_calls_checked": stats.get("in_place_calls", 0),
         "calls_behind_forwarding_decorator": stats.get("deco=1", 0), "calls_on_move_constructed_objects": stats.get("move=1", 0),
-        "calls_on_move_assigned_objects": stats.get("massign=1", 0),
+        "calls_on_move_assigned_objects": stats.get("massign=1", 0), "calls_on_degenerate_beliefs": stats.get("degen=1", 0),
         "model_branch_hits": dict(sorted(stats.get("branches", {}).items())),
         "property_failures_on_impl": len(prop_bad),
         "property_failures_by_key": {k: sum(1 for x in prop_bad if x[0] == k) for k in sorted(set(x[0] for x in prop_bad))},
